@@ -74,7 +74,8 @@ class Executor:
             self._sheets_size[sheet]['last_column'] = max(column, self._sheets_size[sheet]['last_column'])
 
         # the most recent value of a cell replaces the earlier ones (also within one call)
-        new_cells = {cell.uid: cell for cell in cells}
+        # (the executor keeps copies: the caller's Cell objects may be used again - for a query, which rewrites their value - or changed)
+        new_cells = {cell.uid: Cell(cell.title, cell.column, cell.row, cell.value) for cell in cells}
         self._cells = {cell for cell in self._cells if cell.uid not in new_cells} | set(new_cells.values())
         self._cells_have_been_changed = True
         return self
